@@ -32,8 +32,8 @@ fn run_final(ops: &[Op], orig_index: &[usize], rho_back: Option<Vec<(u32, u32)>>
     }
     // optionally a few rewrite iterations with slot-name-independent rules (the same in every run that is compared)
     if rewrite > 0 {
-        let names: [&[&str]; 3] = [&["add-comm", "mul-comm", "add-assoc"], &["k-def", "h-def"], &["sum-swap", "add-comm", "k-def"]];
-        let rws: Vec<Rewrite<Main>> = names[(rewrite - 1) % 3].iter().filter_map(|n| POOL.iter().find(|r| r.0 == *n)).map(|r| mk_rule(r)).collect();
+        let names: [&[&str]; 4] = [&["add-comm", "mul-comm", "add-assoc"], &["k-def", "h-def"], &["sum-swap", "add-comm", "k-def"], &["var-factor", "add-comm"]];
+        let rws: Vec<Rewrite<Main>> = names[(rewrite - 1) % 4].iter().filter_map(|n| POOL.iter().find(|r| r.0 == *n)).map(|r| mk_rule(r)).collect();
         for _ in 0..2 {
             if eg.total_number_of_nodes() > 120 {
                 break;
@@ -246,10 +246,22 @@ fn rename_case(rng: &mut Rng) -> Case {
     // half of the cases come from the streams with symmetric classes and parents over them: there the choice
     // among group-compatible variants (shape computation) is where slot order could leak into the result
     let want_sym = rng.chance(1, 2);
-    let (ops, stream) = loop {
-        let (ops, stream) = gen_history(rng);
-        if !want_sym || matches!(stream, "inherit" | "symred" | "deepsym" | "symmetry" | "upmerge") {
-            break (ops, stream);
+    // one case in six: terms `p*q + r` over slot names, rewritten with a rule whose pattern has free slots (one of them
+    // twice): which matches exist must not depend on how the names sort
+    let slotarith = rng.chance(1, 6);
+    let (ops, stream) = if slotarith {
+        let k = rng.range(2, 4);
+        let mut ops: Vec<Op> = (0..k).map(|_| Op::Add(gen_var_factor_term(rng))).collect();
+        if rng.chance(1, 3) {
+            ops.push(Op::Union(0, 1));
+        }
+        (ops, "slotarith")
+    } else {
+        loop {
+            let (ops, stream) = gen_history(rng);
+            if !want_sym || matches!(stream, "inherit" | "symred" | "deepsym" | "symmetry" | "upmerge") {
+                break (ops, stream);
+            }
         }
     };
     let names = all_names(&ops);
@@ -300,7 +312,7 @@ fn rename_case(rng: &mut Rng) -> Case {
     }
     let rs = runs.clone();
     // a third of the cases continue with two rewrite iterations (arithmetic start terms make the rules fire)
-    let rewrite = if rng.chance(1, 3) { 1 + rng.below(3) } else { 0 };
+    let rewrite = if slotarith { 4 } else if rng.chance(1, 3) { 1 + rng.below(3) } else { 0 };
     let r = in_fresh_thread(move || {
         intern_names();
         rs.iter().map(|(_, ops, back)| run_final(ops, &idx, back.clone(), rewrite)).collect::<Vec<_>>()
